@@ -133,12 +133,16 @@ def newprim_worker(args):
         if name.startswith('ffi_type_'):
             return ex.mem.alloc(24, '@' + name, 'global', fill=0)
         return pystubs.extern_global(ex, name, g, m)
-    st = pystubs.stubs(get_unique_type=lambda ex, x, key, n_: x)
+    def get_unique(ex, x, key, n_):
+        ex.ghost['ukey'] = (simp(ex.mem.load(simp(key), 8)), simp(n_))
+        return x
+    st = pystubs.stubs(get_unique_type=get_unique)
     st['@*'] = ext
     ex = llsym.Executor(mod, st, loop_bound=64, max_depth=40)
 
     def h(ex):
         py = pystubs.PyEnv(ex)
+        ex.ghost['ukey'] = None
         buf = ex.mem.alloc(n + 1, 'name', 'input')
         bs = [z3.BitVec('c%d' % i, 8) for i in range(n)]
         for i, b in enumerate(bs):
@@ -191,6 +195,18 @@ def newprim_worker(args):
                 want += [has('CT_PRIMITIVE_COMPLEX'), z3.Not(has('CT_PRIMITIVE_FLOAT')), z3.Not(has('CT_PRIMITIVE_SIGNED')),
                          z3.Not(has('CT_PRIMITIVE_UNSIGNED'))]
             conds.append(z3.Implies(str_is(bs, nm), z3.And(*want)))
+        # the uniqueness key (C27) is the address of the static table row carrying this very name
+        uk = ex.ghost['ukey']
+        okk = uk is not None and is_c(uk[0]) and uk[1] == 1
+        if okk:
+            rowname = simp(ex.mem.load(uk[0], 8))
+            okk = is_c(rowname)
+            if okk:
+                rn = [bv(ex.mem.load(rowname + i, 1), 8) for i in range(n + 1)]
+                hutil.discharge(chk, ex, label + ':unique-key-is-the-table-row-of-this-name', z3.And(*([rn[i] == bs[i] for i in range(n)] + [rn[n] == 0])),
+                                inputs, replay=replay)
+        if not okk:
+            hutil.discharge(chk, ex, label + ':unique-key-is-the-table-row-of-this-name', False, inputs, replay=replay)
         hutil.discharge(chk, ex, label + ':size-align-kind-signedness-as-gcc-and-model.py', z3.And(*conds) if conds else True, inputs, replay=replay)
 
     res = ex.explore(h, max_paths=20000)
